@@ -265,6 +265,7 @@ func c04History(t *testing.T, r *vRand, idx int) (string, map[string]interface{}
 		advChoices = append(advChoices, lifeS-ttlS-17, lifeS-17, lifeS+17, 2*lifeS+5)
 	}
 	before := w.listing()
+	lastListing := gC04Listing(before, names)
 	for len(steps) < nops || len(script) > 0 {
 		var kind string
 		bi := r.Intn(nblk)
@@ -445,7 +446,13 @@ func c04History(t *testing.T, r *vRand, idx int) (string, map[string]interface{}
 		if extra > 0 {
 			tags = append(tags, "stray-files")
 		}
-		steps = append(steps, fmt.Sprintf("(St %s %s %s (%s) %d %s)", gT(lo), gT(now), gT(hi), gop, code, gC04Listing(after, names)))
+		gafter := gC04Listing(after, names)
+		gopt := "(Some " + gafter + ")"
+		if gafter == lastListing {
+			gopt = "None"
+		}
+		lastListing = gafter
+		steps = append(steps, fmt.Sprintf("(Sr %s %d %d (%s) %d %s)", gT(lo), now-lo, hi-lo, gop, code, gopt))
 		descs = append(descs, fmt.Sprintf("%s %s -> %d %s", kind, names[h], code, descC04Listing(after, names)))
 		tags = append(tags, "op="+kind, fmt.Sprintf("%s=%dxx", kind, code/100))
 		before = after
@@ -466,7 +473,7 @@ func c04History(t *testing.T, r *vRand, idx int) (string, map[string]interface{}
 		empty[k] = "([], [])"
 	}
 	term := fmt.Sprintf("{| c_cfg := {| ttl := %d; life := %d; blob_trash := %s |};\n   c_ro := %s; c_uuid := %s; c_init := %s;\n   c_steps := %s |}",
-		ttl, lifeS*1e9, gBool(blobTrash), gList(gro), gList(guu), gList(empty), "[\n    "+strings.Join(steps, ";\n    ")+"]")
+		ttl, lifeS*1e9, gBool(blobTrash), gList(gro), gList(guu), gList(empty), "expand "+gList(empty)+" [\n    "+strings.Join(steps, ";\n    ")+"]")
 	desc := map[string]interface{}{"index": idx, "volumes": mix, "hashes": names, "blob_trash": blobTrash, "lifetime_s": lifeS, "ttl_s": ttlS, "history": descs}
 	tags = append(tags, "vols="+mix, fmt.Sprintf("lifetime=%d", lifeS), fmt.Sprintf("blob_trash=%v", blobTrash))
 	if sawTrashed {
